@@ -119,8 +119,27 @@ def check(prop, tier, seed):
         c["input"] = inp
         cases.append(c)
         msg = mod.direct_oracle(inp, c["obs"]) if hasattr(mod, "direct_oracle") else None
+        if not msg and hasattr(mod, "extra_oracle"):
+            msg = mod.extra_oracle(inp, c["obs"])
         if msg:
             oracle_failures.append((c, msg))
+    # isolation: the observation of a case must not depend on what the process handled before it (caches keyed too
+    # coarsely, state kept in classes or modules). A sample of the cases is run a second time, in reverse order, after
+    # all others; a different observation is a failure of the property for that input in that context.
+    n_rerun = 0
+    if cases and not getattr(mod, "NO_RERUN", False):
+        sample = random.Random(seed + 1).sample(range(len(cases)), min(len(cases), 120 if tier == "quick" else 600))
+        flagged = {id(c) for c, _ in oracle_failures}
+        for i in sorted(sample, reverse=True):
+            first = cases[i]
+            again = mod.make_case(first["input"])
+            n_rerun += 1
+            if json.dumps(again["obs"], sort_keys=True, default=str) != json.dumps(first["obs"], sort_keys=True, default=str) and id(first) not in flagged:
+                again["input"] = first["input"]
+                again["first_observation"] = first["obs"]
+                msg = (mod.direct_oracle(first["input"], again["obs"]) if hasattr(mod, "direct_oracle") else None) or ""
+                oracle_failures.append((again, "the same input gave a different observation when it was handled a second time, after %d other "
+                                               "cases, in this process (first: %s) %s" % (len(cases) - 1, json.dumps(first["obs"], default=str)[:300], msg)))
     corr_bad, corr_errors = [], []
     if model_files_ok:
         corr_bad, corr_errors = C.run_shards(
@@ -225,6 +244,7 @@ def check(prop, tier, seed):
             "known_findings_seen": sorted(seen_known),
             "input_distribution": dist,
             "corpus_cases": n_corpus,
+            "cases_run_a_second_time_for_isolation": n_rerun,
             "budget_escalated_because_proof_broke": escalate,
             "notes": notes,
         },
